@@ -166,14 +166,15 @@ Section Met.
                    (map (fun v => if lenient_view_applies v (fst si) (snd si) then 1 else 0)%nat vs)).
   Definition why_missing (si : scope_id * instr) (v : view) (obs : list stream) : list tok :=
     if lenient_differs si then fail "view_applies_iff_selectors_match:unversioned_meter"
-    else if existsb (shaped_but_keys v (snd si) (fst si)) obs
-    then (if is_async (i_type (snd si)) && negb (is_nil (filter_of v)) &&
-             existsb (fun o => shaped_but_keys v (snd si) (fst si) o && same_keys (st_keys o) keys) obs
-          then fail "view_shapes_exactly:attribute_filter_async"
-          else fail "view_shapes_exactly:attribute_keys")
     else match views_for spec_view_applies vs (fst si) (snd si) with
          | _ :: _ :: _ => fail "every_view_stream_collected:two_views"
-         | _ => fail "every_view_stream_collected:missing"
+         | _ =>
+             if existsb (shaped_but_keys v (snd si) (fst si)) obs
+             then (if is_async (i_type (snd si)) && negb (is_nil (filter_of v)) &&
+                      existsb (fun o => shaped_but_keys v (snd si) (fst si) o && same_keys (st_keys o) keys) obs
+                   then fail "view_shapes_exactly:attribute_filter_async"
+                   else fail "view_shapes_exactly:attribute_keys")
+             else fail "every_view_stream_collected:missing"
          end.
   Definition why_extra (o : stream) : list tok :=
     let is := instrs_of None ops in
